@@ -135,6 +135,143 @@ def deterministic(ctx, drv):
             ctx.disagreement("dsir-arrays", dict(rep, impl=plain, model=dict(times=m["times"], cols=[m["S"], m["I"], m["R"]])))
 
 
+class LogRules(allsims.Rules):
+    """the table rules of a case, logging every callback call with its arguments and its answer"""
+    def __init__(self, case, lab, idx):
+        super().__init__(case, lab, idx)
+        self.asked, self.answers = [], []
+
+    def test_transmission(self, u, v):
+        b = bool(super().test_transmission(u, v))
+        self.asked.append([0, self.idx[u], self.idx[v]])
+        self.answers.append(b)
+        return b
+
+    def test_recovery(self, u):
+        b = bool(super().test_recovery(u))
+        self.asked.append([1, self.idx[u]])
+        self.answers.append(b)
+        return b
+
+
+def generated_model(ctx):
+    """the Lean code GENERATED from the source of discrete_SIR, basic_discrete_SIS, _simple_test_transmission_,
+    percolate_network and the two forwarding wrappers (harness/pydisc2lean.py -> Gen/DiscreteGen.lean), run by its own
+    driver on the same scripted draws / callback answers as the implementation; the iteration order of the Python sets
+    is reproduced by a model of CPython's set table fed with the real hashes.  Compared: RNG-call trace, sequence of
+    callback calls with arguments, arrays, transmission list, every node history."""
+    import fcntl, subprocess, os, json, pydisc2lean
+    lean = common.LEAN
+    os.makedirs(os.path.join(lean, ".audit"), exist_ok=True)
+    with open(os.path.join(lean, ".audit", "gengill.lock"), "w") as lock:
+        fcntl.flock(lock, fcntl.LOCK_EX)
+        try:
+            _, errors = pydisc2lean.regenerate()
+        except Exception as e:
+            errors = {"translator": "crashed: %r" % e}
+        if errors:
+            ctx.disagreement("generated-discrete:translation", dict(entry="discrete_SIR", errors=errors))
+            return
+        p = common.lake(["build", "driverdisc"])
+    if p.returncode != 0:
+        ctx.disagreement("generated-discrete:build", dict(entry="discrete_SIR", log="\n".join(
+            l for l in (p.stdout + p.stderr).splitlines() if "error" in l)[:1500]))
+        return
+    reqs, metas = [], []
+    plan = [("discrete_SIR", ctx.scale(500, 3000)), ("basic_discrete_SIR", ctx.scale(300, 2000)),
+            ("basic_discrete_SIS", ctx.scale(300, 2000)), ("percolation_based_discrete_SIR", ctx.scale(200, 1500))]
+    for sim, count in plan:
+        for k in range(count):
+            c = allsims.gen_case(ctx.rng, sim)
+            if c["init"]["kind"] not in ("list", "single"):
+                c["init"] = dict(kind="list", nodes=sorted(ctx.rng.sample(range(c["n"]), ctx.rng.randint(1, min(3, c["n"])))))
+            c["container"] = ctx.rng.choice(["list", "tuple"])
+            c["prewarm"] = False
+            r = ctx.rng.random()
+            if r < 0.25:          # string labels: the set order then depends on this process's hash seed
+                names = ["n%s%s" % (chr(97 + (7 * i) % 26), i) for i in range(c["n"])]
+                ctx.rng.shuffle(names)
+                c["labels"] = names
+            elif r < 0.4:         # large / negative integer labels: collisions in the set table
+                c["labels"] = ctx.rng.sample(range(-40, 200), c["n"])
+            if sim == "basic_discrete_SIS" and c["tmax"] == "inf":
+                c["tmax"] = str(F(c["tmin"]) + ctx.rng.choice([2, 5, F(7, 2)]))
+            full = ctx.rng.random() < 0.6
+            G, lab = sims.build_graph(c)
+            idx = gen.index_of(G)
+            tr = rngmod.TapeRandom(rng=ctx.rng, idx=idx)
+            rules = LogRules(c, lab, idx)
+            rep = dict(entry=sim, stream="generated-model", case=strip(c), full=full)
+            out = {}
+            try:
+                res = allsims.call_sim(c, G, lab, tr, full, rules)
+                if full:
+                    out = allsims.dump_full(res, G, idx, c)
+                    out["times"], out["cols"] = out["accessors"]["t"], None
+                else:
+                    out = dict(times=sims.arr(res[0]), cols=[sims.iarr(x) for x in res[1:]])
+            except Exception as e:
+                import traceback
+                ctx.case(rep, nontrivial=False)
+                ctx.violation("%s raised %s" % (sim, allsims.err_enum(e)), dict(rep, tb=traceback.format_exc()[-600:]))
+                continue
+            li = {i: idx[lab(i)] for i in range(c["n"])}
+            infs = [li[i] for i in c["init"]["nodes"]] if c["init"]["kind"] == "list" else [li[c["init"]["node"]]]
+            recs = [li[i] for i in c.get("recs", [])] if sim in allsims.HAS_RECS and c.get("recs") else None
+            rq = dict(op="dsis" if sim == "basic_discrete_SIS" else "dsir", n=c["n"], adj=gen.adj_lists(G, idx),
+                      hashes=[str(hash(u) % 2 ** 64) for u in G], tmin=c["tmin"], tmax=c["tmax"], full=full, infs=infs,
+                      recs=recs, tape=tr.log, p=c.get("p", "0"))
+            if sim == "discrete_SIR":
+                rq.update(mode="cb", recrule=c["recsteps"] is not None, answers=rules.answers)
+            elif sim == "basic_discrete_SIR":
+                rq["mode"] = "basic"
+            elif sim == "percolation_based_discrete_SIR":
+                rq.update(mode="perc", edges=[[idx[u], idx[v]] for u, v in G.edges()])
+            if c.get("labels"):
+                rep["hashes"] = rq["hashes"]
+            reqs.append(rq)
+            metas.append((rep, out, rules, sims.enc_trace(tr.trace, idx), c, full))
+            ctx.case(rep, nontrivial=len(out["times"]) > 1)
+            ctx.count("generated-model:%s:%s" % (sim, "full" if full else "arrays"))
+    exe = os.path.join(lean, ".lake", "build", "bin", "driverdisc")
+    data = "\n".join(json.dumps(r, separators=(",", ":")) for r in reqs) + "\n"
+    q = subprocess.run([exe], input=data, capture_output=True, text=True)
+    lines = q.stdout.splitlines()
+    if q.returncode != 0 or len(lines) != len(reqs):
+        raise RuntimeError("driverdisc crashed: " + q.stderr[-1000:])
+    for (rep, out, rules, trace, c, full), line in zip(metas, lines):
+        g = json.loads(line)
+        ctx.traces += 1
+        if not g.get("ok"):
+            ctx.disagreement("generated-discrete-error", dict(rep, generated=g))
+            continue
+        d = []
+        if g["trace"] != trace:
+            i = next((i for i in range(min(len(g["trace"]), len(trace))) if g["trace"][i] != trace[i]), -1)
+            d.append("RNG trace at call %d: impl %s generated %s" % (i, trace[i] if 0 <= i < len(trace) else None,
+                                                                   g["trace"][i] if 0 <= i < len(g["trace"]) else None))
+        if g["unused"]:
+            d.append("%d draws not consumed" % g["unused"])
+        if rep["entry"] == "discrete_SIR" and (g["calls"] != rules.asked or g["answers_left"]):
+            d.append("callback calls")
+        cols = [g["S"], g["I"]] + ([g["R"]] if "R" in g else [])
+        if not full and g["t"] != out["times"]:
+            d.append("times")
+        if full:
+            # the full-data object reports no row after tmax (the loop does compute one): arrays are compared in the
+            # plain runs, here the transmission list and the node histories
+            if out.get("transmissions") != g["trans"]:
+                d.append("transmissions")
+            hist = {h[0]: [[t, s_] for t, s_ in zip(h[1], h[2])] for h in g["history"]}
+            if [hist.get(i, [[str(F(c["tmin"])), "S"]]) for i in range(c["n"])] != out.get("history"):
+                d.append("node histories")
+        elif out["cols"] != cols:
+            d.append("count columns")
+        if d:
+            ctx.disagreement("generated-discrete-tape:" + ";".join(d)[:300], dict(rep, diffs=d, generated={k: g[k] for k in ("t", "S", "I")},
+                                                                                 impl=dict(times=out["times"], cols=out.get("cols"))))
+
+
 def law_cases(ctx, nmax, sis):
     ps = [F(1, 4), F(1, 2), F(3, 4), F(1), F(0)]
     for n in range(1, nmax + 1):
@@ -347,3 +484,4 @@ def run(ctx):
     one_step_law(ctx, drv, True, ctx.scale(3, 4), ctx.scale(120, 3000))
     wrappers(ctx, drv)
     percolate_law(ctx)
+    generated_model(ctx)
